@@ -1499,7 +1499,7 @@ def run_env(case: dict) -> Tuple[List[str], dict]:
             env = None
             marl = None
             try:
-                if n_proxies == 1:
+                if n_proxies == 1 and not case.get("game_loop"):
                     env = PrimaiteGymEnv(env_config=cfg)
                     game = env.game
                 elif n_proxies > 1 and (case.get("marl") or case["seed"] % 2 == 0):
